@@ -1,6 +1,7 @@
 """C05 case generator + python property oracle helpers.
 
-Case line:  plen=<n> total=<n> done=<01..> seed=<n> files=<a,b,..> | op ...
+Case line:  plen=<n> total=<n> done=<01..> seed=<n> files=<a,b,..> [enc=1] | op ...
+  enc=1    RC4 stream (the scripted peer negotiates MSE first)
   R:i:b:l  REQUEST     C:i:b:l  CANCEL     D:0 / D:1  unchoke / choke decision
   W:k      the library-side socket accepts k more bytes in this event_write      W:inf  unlimited
 Normal form (the harness needs it): D:1 never directly follows R/C/D:0 and is always followed by a W
@@ -28,9 +29,20 @@ class Layout:
             return self.plen
         return self.total % self.plen
 
-    def head(self):
-        return "plen=%d total=%d done=%s seed=%d files=%s" % (
-            self.plen, self.total, self.done, self.seed, ",".join(map(str, self.files)))
+    def head(self, enc=False):
+        return "plen=%d total=%d done=%s seed=%d files=%s%s" % (
+            self.plen, self.total, self.done, self.seed, ",".join(map(str, self.files)), " enc=1" if enc else "")
+
+    def parts(self, i):
+        """[(begin, end)] offsets inside piece i of the non-empty file parts it is made of"""
+        lo, hi = i * self.plen, i * self.plen + self.psize(i)
+        out, g = [], 0
+        for f in self.files:
+            a, b = max(g, lo), min(g + f, hi)
+            if b > a:
+                out.append((a - lo, b - lo))
+            g += f
+        return out
 
 
 def parse_head(h):
@@ -44,6 +56,7 @@ LAYOUTS = [
     Layout(262144, [300000, 1, 299999], "111", seed=2),  # 2^17 blocks fit in a piece
     Layout(16384, [1, 16383, 32768], "111", seed=3),     # size is a multiple of the piece length
     Layout(2048, [1, 2, 3, 700, 0, 4294], "101", seed=4),  # tiny pieces, zero-length file, many boundaries
+    Layout(524288, [700000, 300000, 200000], "111", seed=5),  # pieces 4 x the 2^17 limit: requests of 131073 .. piece length
 ]
 
 
@@ -108,10 +121,31 @@ def valid_req(r, L, small=False):
     return (0, 0, 1)
 
 
+def inner_part_req(r, L):
+    """a block lying wholly inside a NON-FIRST file part of a piece made of several files"""
+    cands = [(i, p) for i in range(L.n) if L.done[i] == "1" for p in L.parts(i)[1:] if p[1] - p[0] >= 1]
+    if not cands:
+        return valid_req(r, L, True)
+    i, (a, b) = r.choice(cands)
+    l = r.randrange(1, min(b - a, LIMIT) + 1)
+    if r.random() < 0.4:
+        l = min(l, 600)
+    off = r.choice([a, b - l, r.randrange(a, b - l + 1)])
+    return (i, off, l)
+
+
 def boundary_req(r, L):
     i = r.randrange(L.n)
     ps = L.psize(i)
-    k = r.randrange(16)
+    k = r.randrange(20)
+    if k == 16:
+        return (i, 0, ps)                     # the whole piece (over the limit when the piece is big)
+    if k == 17:
+        return (i, 0, min(ps, LIMIT + 1 + r.randrange(0, 5)))
+    if k == 18:
+        return (i, 0, min(ps, r.randrange(LIMIT + 1, max(LIMIT + 2, L.plen + 1))))
+    if k == 19:
+        return (i, max(0, ps - LIMIT - 1), min(ps, LIMIT + 1))
     if k == 0:
         return (i, ps - 1, 2)                 # one past the end
     if k == 1:
@@ -162,7 +196,9 @@ def gen_stream(r, L, mode):
     for _ in range(n):
         c = r.random()
         if c < 0.5:
-            if mode == "valid" or r.random() < 0.6:
+            if mode == "parts":
+                t = inner_part_req(r, L) if r.random() < 0.8 else valid_req(r, L, True)
+            elif mode == "valid" or r.random() < 0.6:
                 t = valid_req(r, L, budget < 100000)
             elif mode == "boundary":
                 t = boundary_req(r, L)
@@ -209,6 +245,20 @@ HAND = [
     "D:0 R:0:0:131072 R:0:0:131073 R:0:1:131072 W:inf",
 ]
 
+# RC4 stream: blocks inside the 2nd file part of piece 1 (layout 0/1: part boundary at 17232), partial
+# writes inside the header, inside the encrypt buffer, across refills
+HAND_ENC = [
+    "D:0 R:1:20000:12768 R:1:17300:100 R:1:17000:500 W:18 W:0 W:5000 W:1 W:20000 W:inf",
+    "D:0 R:1:17232:1 R:1:17231:2 R:1:32767:1 W:inf",
+    "D:0 R:0:100:16384 R:1:32000:768 W:20 W:inf",
+    "D:0 R:0:0:16384 R:1:0:16384 R:2:0:16384 W:100 D:1 W:50 R:3:0:10 W:inf D:0 R:3:0:10 W:inf",
+    "D:0 R:3:21000:702 R:3:21697:5 R:3:21696:6 W:3 W:9 W:1 W:700 W:inf",
+]
+HAND_BIG = [   # layout 5 (512 KiB pieces): the 2^17 clause on its own
+    "D:0 R:0:0:131072 W:inf R:1:0:131073 R:2:0:151424 R:0:0:524288 R:1:1000:262144 W:inf R:0:5:10 W:inf",
+    "D:0 R:1:175712:131072 R:1:175712:131073 R:1:175713:131072 W:70000 W:inf",
+]
+
 
 def gen(seed, tier):
     r = random.Random(seed * 7919 + 5)
@@ -225,12 +275,25 @@ def gen(seed, tier):
         for h in HAND:
             cases.append(L.head() + " | " + " ".join(normalize(h.split())))
             stats["hand"] += 1
-    nval, nbnd, nmal = (60, 90, 40) if tier == "quick" else (500, 700, 300)
-    for mode, cnt in (("valid", nval), ("boundary", nbnd), ("malformed", nmal)):
+    for L in LAYOUTS[:2]:
+        for h in HAND_ENC:
+            cases.append(L.head(True) + " | " + " ".join(normalize(h.split())))
+            stats["hand"] += 1
+    for e in (False, True):
+        for h in HAND_BIG:
+            cases.append(LAYOUTS[5].head(e) + " | " + " ".join(normalize(h.split())))
+            stats["hand"] += 1
+    nval, nbnd, nmal, npar = (60, 90, 40, 60) if tier == "quick" else (500, 700, 300, 500)
+    stats.update(parts=0, rc4=0, plain=0)
+    for mode, cnt in (("valid", nval), ("boundary", nbnd), ("malformed", nmal), ("parts", npar)):
         for j in range(cnt):
             L = LAYOUTS[j % len(LAYOUTS)]
-            cases.append(L.head() + " | " + " ".join(gen_stream(r, L, mode)))
+            if mode == "parts":
+                L = LAYOUTS[(0, 1, 4, 5, 2)[j % 5]]
+            e = r.random() < (0.7 if mode == "parts" else 0.4)
+            cases.append(L.head(e) + " | " + " ".join(gen_stream(r, L, mode)))
             stats[mode] += 1
+            stats["rc4" if e else "plain"] += 1
     # queue bound: more than 2048 outstanding one-byte requests, writer blocked
     for L in (LAYOUTS[0],) if tier == "quick" else (LAYOUTS[0], LAYOUTS[3]):
         ps = L.psize(0)
@@ -263,6 +326,8 @@ def oracle(case, line):
     head, _, opstr = case.partition("|")
     L = parse_head(head)
     main, _, extra = line.partition(" || ")
+    if " ERR:" in main:
+        return []          # harness trouble (reported as broken correspondence)
     f = dict(t.split("=", 1) for t in main.split() if "=" in t)
     x = dict(t.split("=", 1) for t in extra.split() if "=" in t)
     msgs = [] if f.get("msgs", "-") == "-" else f["msgs"].split(",")
@@ -302,7 +367,9 @@ def oracle(case, line):
             used[t] = used.get(t, 0) + 1
             if used[t] > len(cands):
                 bad.append(("piece-twice", "PIECE %s sent more often than requested" % m))
-        if t[2] == 0 or t[2] > LIMIT:
+        # the property's own length clause, on the implementation's output alone: nothing here depends
+        # on the model or on the constant extracted from the source
+        if t[2] == 0 or t[2] > 131072:
             bad.append(("piece-length", "PIECE %s has a length outside (0, 2^17]" % m))
         if t[0] >= L.n or t[1] + t[2] > L.psize(min(t[0], L.n - 1)):
             bad.append(("piece-range", "PIECE %s lies outside the piece" % m))
